@@ -16,7 +16,7 @@ Import ListNotations.
 Theorem c03_no_stale : forall s st,
   run repaired s = Ok st ->
   forall h k v, In v (field_of st h k) -> alookup (owner v) (L1 (reg st)) = Some v.
-Proof. intros s st H. exact (run_published repaired s st eq_refl H). Qed.
+Proof. intros s st H h k v. exact (run_published (P:=anyk) repaired s st eq_refl H h k v I). Qed.
 
 (* the same read the other way round: if some holder has been handed a version that differs from
    what the lookup returns, the start did not succeed *)
@@ -34,7 +34,7 @@ Qed.
 Theorem c03_no_stale_any_variant : forall vt s st,
   fix_c03 vt = true -> run vt s = Ok st ->
   forall h k v, In v (field_of st h k) -> alookup (owner v) (L1 (reg st)) = Some v.
-Proof. intros vt s st Hf H. exact (run_published vt s st Hf H). Qed.
+Proof. intros vt s st Hf H h k v. exact (run_published (P:=anyk) vt s st Hf H h k v I). Qed.
 
 (* the unrepaired tree violates it: a component that holds its own early proxy (through a slice of an
    interface it implements) and is wrapped into a different proxy after initialization starts
@@ -76,3 +76,32 @@ Example c03_example_inconsistent :
   | _, _ => False
   end.
 Proof. vm_compute. exact I. Qed.
+
+(* ---- extended semantics (Model/FactoryX.v) --------------------------------------------------------------- *)
+From IocVerif Require Import Model.FactoryX Proofs.FactoryXInv.
+
+(* with short-circuiting post-processors and Init methods that call back into the factory, every INJECTION
+   POINT (index below 100) still holds the one published version after a successful start *)
+Theorem c03_no_stale_extended : forall vt s x o st,
+  fix_c03 vt = true -> run_xt vt s x = (o, Ok st) ->
+  forall h k v, k < 100 -> In v (field_of st h k) -> alookup (owner v) (L1 (reg st)) = Some v.
+Proof. intros vt s x o st Hf H. exact (run_xt_published vt s x o st Hf H). Qed.
+
+(* ... and why the statement stops at injection points (observation O-C03a of DESIGN.md 0.4): what an Init method
+   obtains by LOOKING a component up is not recorded as a dependency, so the stale-dependents check cannot see
+   the taker.  Component 3's Init looks up component 2, which is in creation (2 is wired with 3): it gets the raw
+   early reference; processor 4 then wraps 2 after initialization; the start succeeds, 2 is published as the
+   proxy and 3 keeps the superseded reference in its pseudo-field 100. *)
+Definition ex_scn3x : scenario :=
+  mkScn [ mkComp 100 [] false None false true [] [] [] None None None false (Some (Ord 2, PBuiltin BWire));
+          mkComp 101 [] false None false true [] [] [] None None None false (Some (Ord 4, PBuiltin BFurther));
+          mkComp 0 [] false None false false [] [mkPoint false (TPtr 1) SByType None true] [] None None None false None;
+          mkComp 1 [] false None false false [] [] [] None (Some false) None false None;
+          mkComp 7 [] false None false false [] [] [] None None None false (Some (Unord, PUser [] [(2, AFresh)])) ]
+        [] false None [].
+
+Theorem c03x_init_lookup_keeps_early_reference :
+  exists o st, run_xt repaired ex_scn3x (mkX [] [(3, [2])]) = (o, Ok st)
+               /\ field_of st 3 100 = [VOrig 2] /\ field_of st 2 0 = [VOrig 3]
+               /\ alookup 2 (L1 (reg st)) = Some (VProxy 2 0).
+Proof. eexists. eexists. vm_compute. repeat split. Qed.
